@@ -183,10 +183,10 @@ func spaces(tier string) []*gridx.Space {
 		cf := cf
 		top := cf.vols[len(cf.vols)-1]
 		p := tables.StorageParams(cf.dt, cf.levels, cf.vols, cf.areas, cf.minRel, cf.maxRel)
-		inits := [][]float64{{0, 0, 0}, {top * 0.4, 0, 0}, {top * 0.9, 0, 0}, {top, 0, 0}}
+		inits := [][]float64{{0, 0, 0}, {top * 0.4, 0, 0}, {top * 0.9, 0, 0}, {top, 0, 0}, {top * 1.25, 0, 0}} // the last one: a hot start from a surcharged store
 		out = append(out, &gridx.Space{Name: "Storage/" + cf.name, Model: "Storage", Params: [][]float64{p}, PNames: []string{cf.name}, Letters: letters, T: T, Inits: inits, Oracle: oracle(cf)})
 		// long periodic series (years of daily steps): every word of length 1..2 over 4 letters repeated 512 times
-		if cf.dt == 86400 && (strings.HasSuffix(cf.name, "uncontrolled-outlet/dt=86400") || (tier == "thorough" && strings.Contains(cf.name, "spillway"))) {
+		if cf.dt == 86400 && (strings.HasSuffix(cf.name, "uncontrolled-outlet/dt=86400") || strings.HasPrefix(cf.name, "n=2-small-tank") || (tier == "thorough" && strings.Contains(cf.name, "spillway"))) {
 			long := [][]float64{{0, 0, 0, 0, 0, 0}, {0, 0, 200, 0, 0, 0}, {2, 8, 20, 1, 0, 0}, {0, 8, 0, 50, 0, 0}}
 			out = append(out, &gridx.Space{Name: "Storage-long/" + cf.name, Model: "Storage", Params: [][]float64{p}, PNames: []string{cf.name}, Letters: long, T: 2, MinT: 1, Repeat: 512,
 				Inits: [][]float64{{top * 0.4, 0, 0}}, Oracle: oracle(cf), SecondPassEvery: -1})
@@ -198,7 +198,7 @@ func spaces(tier string) []*gridx.Space {
 func Spec() *vf.Check {
 	return &vf.Check{
 		ID: "C13", Level: "exploration", BlockSize: 64,
-		Rule: "Storage x 5 level-volume-area tables (2, 3 convex, 4 concave, 4 with a short top segment, 3 starting at a volume above empty; area 0 at the first point) x 5 release-curve families (zero, constant max, increasing max, spillway, uncontrolled outlet min=max) x dt {86400,3600} (plus a 1000 m3 tank with a steep outlet at dt 10, 1000, 86400 s) x initial volume {empty, 40%, 90%, full} x every word of length T over 10 (rain,PET,inflow,demand,targetMinimumVolume,targetMinimumCapacity) letters (filling to spill and drawing down to empty occur); plus long periodic series: every word of length 1..2 over 4 letters repeated 512 times (512 / 1024 daily steps) for the uncontrolled-outlet tables (thorough: spillway tables too); " +
+		Rule: "Storage x 5 level-volume-area tables (2, 3 convex, 4 concave, 4 with a short top segment, 3 starting at a volume above empty; area 0 at the first point) x 5 release-curve families (zero, constant max, increasing max, spillway, uncontrolled outlet min=max) x dt {86400,3600} (plus a 1000 m3 tank with a steep outlet at dt 10, 1000, 86400 s) x initial volume {empty, 40%, 90%, full, 125% (surcharged hot start)} x every word of length T over 10 (rain,PET,inflow,demand,targetMinimumVolume,targetMinimumCapacity) letters (filling to spill and drawing down to empty occur); plus long periodic series: every word of length 1..2 over 4 letters repeated 512 times (512 / 1024 daily steps) for the uncontrolled-outlet tables (thorough: spillway tables too); " +
 			"per step: balance with the reported rainfall/evaporation volumes, those volumes = depth x area over the areas traversed, V>=0, outflow within the release curves over the volumes traversed, = demand when admissible at both ends, excess only above full supply; final level/area = table values. distinct_nontrivial = words that move water.",
 		Assumptions:   []string{"tables are physically consistent: zero area and zero release at (and below) the first table point (a reservoir cannot release or evaporate from nothing)", "within one step the volume moves monotonically (constant forcing) up to the sub-step controller's tolerance, so curve values at the step's end volumes bound the release within 1e-4 relative + 1e-3 m3/s", "lattice values only"},
 		Build:         func(tier string) vf.Enumeration { return gridx.NewEnum("C13", spaces(tier)) },
